@@ -11,6 +11,8 @@ QUANTUM = Fr(1, 215040)  # every vocabulary length is a multiple of this
 
 
 def vlen(v):
+    if v[0] == "ticks":  # ["ticks", k]: a value lasting exactly k MIDI ticks (288 ticks per whole note): the number 288/k
+        return Fr(v[1], 288)
     base, dots, p, q = v
     return Fr(1) / Fr(base) * (2 - Fr(1, 2 ** dots)) * Fr(q, p)
 
